@@ -16,6 +16,7 @@ package proto
 
 import (
 	"bytes"
+	"fmt"
 	"io"
 	"strconv"
 )
@@ -49,8 +50,16 @@ func newArrayWithParser(parser *Parser) (*Array, error) {
 		return NewArray(), nil
 	}
 
+	if maxArraySize < arraySize {
+		return nil, fmt.Errorf(errorTooLargeArraySize, arraySize, maxArraySize)
+	}
+
 	// Gets all array messages
-	msgs := make([]*Message, arraySize)
+	bufSize := arraySize
+	if arrayBufferSize < bufSize {
+		bufSize = arrayBufferSize
+	}
+	msgs := make([]*Message, 0, bufSize)
 	for n := 0; n < arraySize; n++ {
 		msg, err := parser.Next()
 		if err != nil {
@@ -59,7 +68,7 @@ func newArrayWithParser(parser *Parser) (*Array, error) {
 		if msg == nil {
 			return nil, io.ErrUnexpectedEOF
 		}
-		msgs[n] = msg
+		msgs = append(msgs, msg)
 	}
 	array := &Array{
 		index: 0,
